@@ -18,7 +18,7 @@ shard() {
       [ "${m%%-*}" = "$id" ] || continue
       p=/verif/seeded/$m/patch.diff
       git -C $WT checkout -q -- . ; if ! git -C $WT apply $p; then echo "| $m | $id | patch does not apply | | |" >> $OUT; continue; fi
-      out=$(cd $CP && VERIF_REPO=$WT DX_NO_EVIDENCE=1 ./check $id --tier quick 2>&1); rc=$?
+      out=$(cd $CP && VERIF_REPO=$WT DX_NO_EVIDENCE=1 DX_FAIL_FAST=1 ./check $id --tier quick 2>&1); rc=$?
       viol=$(echo "$out" | grep -E "^$id tier" | sed -E 's/.*violations=([0-9]+).*/\1/')
       sym=$(echo "$out" | grep -E "^  [^ ]+ ::" | head -1 | sed -E 's/^  ([^ ]+) ::.*/\1/' | cut -c1-70)
       echo "| $m | $id | $rc | $viol | $sym |" >> $OUT
@@ -32,7 +32,7 @@ shard() {
 for k in $(seq 0 $((K-1))); do shard $k & done
 wait
 OUT=/verif/seeded/RESULTS.md
-{ echo "# Seeded mutants vs. checks"; echo; echo "Repo HEAD $HEAD; each patch applied to a scratch worktree, the quick check of the broken property run with VERIF_REPO pointing at it (exit 1 + VIOLATION expected), then reverted; lines \`(clean tree)\`: the same check on the clean worktree (exit 0 expected). Run in $K parallel shards by tools/selftest_par.sh."; echo; echo "| mutant | check | exit | violations | first symptom |"; echo "|---|---|---|---|---|"; cat /tmp/selftest_part_*.md | sort -t'|' -k3,3 -k2,2; } > $OUT
+{ echo "# Seeded mutants vs. checks"; echo; echo "Repo HEAD $HEAD; each patch applied to a scratch worktree, the quick check of the broken property run with VERIF_REPO pointing at it (exit 1 + VIOLATION expected; DX_FAIL_FAST ends the run at the first violation, so the violations column is 1 and not the number of violating cases of the full run), then reverted; lines \`(clean tree)\`: the same check on the clean worktree (exit 0 expected). Run in $K parallel shards by tools/selftest_par.sh."; echo; echo "| mutant | check | exit | violations | first symptom |"; echo "|---|---|---|---|---|"; cat /tmp/selftest_part_*.md | sort -t'|' -k3,3 -k2,2; } > $OUT
 rm -f /tmp/selftest_part_*.md
 bad=$(grep -E '^\| C' $OUT | awk -F'|' '$4 != " 1 "' | wc -l); badclean=$(grep -E '^\| \(clean' $OUT | awk -F'|' '$4 != " 0 "' | wc -l)
 echo "selftest done: mutants not reported=$bad clean-tree failures=$badclean"
